@@ -197,6 +197,8 @@ type histGen struct {
 	changes int
 	after   int // symbols resolved after the last context change
 	nloc    int
+	// wantAppend: the next table appends (set after a table with a long import list)
+	wantAppend bool
 }
 
 var catalogPool = []SymImport{
@@ -221,12 +223,26 @@ func (h *histGen) lstSpec() (refsym.LSTSpec, string) {
 	r := h.r
 	var spec refsym.LSTSpec
 	desc := "replace"
-	if r.Intn(3) == 0 {
+	if r.Intn(3) == 0 || h.wantAppend {
 		spec.Append = true
 		desc = "append"
+		h.wantAppend = false
 	} else {
 		ni := r.Intn(3)
+		if r.Intn(12) == 0 {
+			// a long import list (more entries than any plausible small-list fast path or chain
+			// limit), usually appended to by the next table
+			ni = 30 + r.Intn(12)
+			h.wantAppend = r.Intn(4) > 0
+		}
 		for j := 0; j < ni; j++ {
+			if j >= 28 && r.Intn(2) == 0 {
+				// a table the catalog does not have, late in the list: its declared size still counts
+				imp := refsym.Import{Name: "C", Version: 1 + r.Intn(2), MaxID: int64(1 + r.Intn(6))}
+				spec.Imports = append(spec.Imports, imp)
+				desc += fmt.Sprintf(" import(%s,v%d,max %d)", imp.Name, imp.Version, imp.MaxID)
+				continue
+			}
 			name := []string{"A", "B", "C", "$ion", ""}[r.Intn(5)]
 			if r.Intn(3) > 0 {
 				name = []string{"A", "B"}[r.Intn(2)]
@@ -323,7 +339,7 @@ func (h *histGen) values() []*model.Value {
 }
 
 func runC10(c *Ctx) {
-	n := c.N(4000, 300000)
+	n := c.N(16000, 300000)
 	c.Parallel(n, func(w, i int) {
 		cs := c.Seed*10_000_019 + int64(i)
 		r := rand.New(rand.NewSource(cs))
